@@ -71,9 +71,49 @@ def key(op, impl, M, S):
         return head + ":accepts:" + _reason(p)
     return head + ":wrong-value"
 
+GO_T = {"i8": "int8", "i16": "int16", "i32": "int32", "i64": "int64", "int": "int", "u8": "uint8", "u16": "uint16",
+        "u32": "uint32", "u64": "uint64", "uint": "uint", "f32": "float32", "f64": "float64", "bool": "bool", "str": "string", "big": "*big.Int"}
+GO_C = {"i8": "Int8", "i16": "Int16", "i32": "Int32", "i64": "Int64", "int": "Int", "u8": "Uint8", "u16": "Uint16", "u32": "Uint32",
+        "u64": "Uint64", "uint": "Uint", "f32": "Float32", "f64": "Float64", "bool": "Bool", "str": "String", "big": "BigInt"}
+
+def _f64(bits):
+    import struct
+    return struct.unpack("<d", struct.pack("<Q", int(bits)))[0]
+
+def _go_src(p):
+    k, t = p["kind"], p["src"]
+    if k in ("f64", "f32"):
+        e = "math.Float64frombits(%s) /* %r */" % (t[1], _f64(t[1]))
+        return "float32(%s)" % e if k == "f32" else e
+    if k == "bool": return "true" if t[1] == "1" else "false"
+    if k == "big": return 'func() *big.Int { b, _ := new(big.Int).SetString("%s", 10); return b }()' % t[1]
+    if k == "nil": return "nil /* or a nil pointer */"
+    if k == "other": return "struct{}{} /* or a slice / map */"
+    if k == "str":
+        raw = b"" if t[1] == "-" else bytes.fromhex(t[1])
+        return '"' + "".join(chr(c) if 32 <= c < 127 and c not in (34, 92) else "\\x%02x" % c for c in raw) + '"'
+    return "%s(%s)" % (GO_T[k], t[1])
+
 def describe(op):
-    return ("H <helper> <target> = pkg/coerce.<Helper>[target](source); S <target> <check> = gozod/coerce.<Target>[Ptr]().<Check>.Parse(source) "
-            "(variant in the comment). Source tokens: integers decimal, floats as float64 bits (f32 widened). See harness/cmd/c17/c17.go.")
+    """Go expression that reproduces the case (a pointer to the value when the comment says ptr=true)."""
+    try:
+        p = parse_op(op); x = _go_src(p); t = p["tgt"]
+        if p["mode"] == "H":
+            h = p["helper"]
+            call = {"toInt64": "coerce.ToInt64(%s)", "toInteger": "coerce.ToInteger[" + GO_T[t] + "](%s)", "toFloat64": "coerce.ToFloat64(%s)",
+                    "toFloat": "coerce.ToFloat[" + GO_T[t] + "](%s)", "toBool": "coerce.ToBool(%s)", "toString": "coerce.ToString(%s)",
+                    "toBigInt": "coerce.ToBigInt(%s)", "to": "coerce.To[" + GO_T[t] + "](%s)"}[h] % x
+            return call + "   // coerce = github.com/kaptinlin/gozod/pkg/coerce; " + C.op_comment(op)
+        tk = C.op_body(op).split(" ")
+        cop, bk, bv = tk[3], tk[4], tk[5]
+        chk = ""
+        if cop != "none":
+            m = {"lt": "Lt", "lte": "Lte", "gt": "Gt", "gte": "Gte", "minlen": "Min", "maxlen": "Max"}[cop]
+            chk = ".%s(%s)" % (m, ("math.Float64frombits(%s) /* %r */" % (bv, _f64(bv))) if bk == "f64" else bv)
+        return ("zc.%s()%s.Parse(%s)   // zc = github.com/kaptinlin/gozod/coerce; variant 1 = %sPtr(), 2 = Integer()/Number(); %s; "
+                "c0 = differs from gozod.%s()%s.Parse(coerce.To[%s](input))" % (GO_C[t], chk, x, GO_C[t], C.op_comment(op), GO_C[t], chk, GO_T[t]))
+    except Exception as e:
+        return "see harness/cmd/c17/c17.go (%s)" % e
 
 def satisfies(impl, S):
     """The statement allows a coercion to fail; what it forbids is succeeding with another value
